@@ -1,3 +1,160 @@
-import Econf.Numeric
+import Econf.Lemmas.NumLemmas
+import Econf.KeyFileOps
+import Econf.Props.C11
+
+/-!
+  C08 — typed values survive set/get exactly.
+
+  Integers: the setter stores `printf("%d")`/`printf("%u")` of the value (`showInt`/`showNat`,
+  the formats are re-extracted from lib/keyfile.c into Generated/Facts.lean), the getter scans it
+  with the `strtol` model and applies its range checks; the theorems hold for every value of the
+  type, without bound on the magnitude.  Booleans: every accepted spelling canonicalises to
+  `true`/`false` and reads back.  Floats: see `Econf/FloatThm.lean` (digits-suffice theorem) and
+  the exhaustive direct oracle of the check.
+-/
+
+set_option linter.unusedSimpArgs false
+
 namespace Econf
+
+theorem getSigned_showInt (i llo lhi lo hi : Int) (h1 : llo ≤ lo) (h2 : hi ≤ lhi) (hlo : lo ≤ i) (hhi : i ≤ hi) :
+    getSigned llo lhi lo hi (showInt i) = .ok i := by
+  unfold getSigned
+  rw [strtoCore_showInt]
+  have hv : strtoVal ⟨decide (i < 0), i.natAbs, true⟩ = i := by
+    unfold strtoVal
+    by_cases hi : i < 0
+    · simp [hi]; omega
+    · simp [hi]; omega
+  simp only [hv, Bool.not_true, Bool.false_eq_true, if_false]
+  have a : ¬ i < llo := by omega
+  have b : ¬ i > lhi := by omega
+  have c : ¬ i < lo := by omega
+  have d : ¬ i > hi := by omega
+  simp [a, b, c, d]
+
+/-- every int32 value: get (set n) = n -/
+theorem C08_int32 (i : Int) (h1 : I32MIN ≤ i) (h2 : i ≤ I32MAX) : getInt32 (showInt i) = .ok i :=
+  getSigned_showInt i _ _ _ _ (by decide) (by decide) h1 h2
+
+/-- every int64 value -/
+theorem C08_int64 (i : Int) (h1 : I64MIN ≤ i) (h2 : i ≤ I64MAX) : getInt64 (showInt i) = .ok i :=
+  getSigned_showInt i _ _ _ _ (by decide) (by decide) h1 h2
+
+theorem getUnsigned_showNat (n lmax max : Nat) (hm : max ≤ lmax) (h : n ≤ max) :
+    getUnsigned lmax max (showNat n) = .ok n := by
+  unfold getUnsigned
+  rw [strtoCore_showNat]
+  have a : ¬ n > lmax := by omega
+  have b : ¬ n > max := by omega
+  simp [a, b]
+
+/-- every uint32 value -/
+theorem C08_uint32 (n : Nat) (h : n ≤ U32MAX) : getUInt32 (showNat n) = .ok n :=
+  getUnsigned_showNat n _ _ (by decide) h
+
+/-- every uint64 value -/
+theorem C08_uint64 (n : Nat) (h : n ≤ U64MAX) : getUInt64 (showNat n) = .ok n :=
+  getUnsigned_showNat n _ _ (by decide) h
+
+/-- through the object: what a typed setter stored is what the matching getter returns, for every
+    object, section and (non-empty) key — composition with the ordered-map law of C11 -/
+theorem C08_int32_object (kf : KeyFile) (g : Option Str) (k : Str) (hk : k ≠ []) (i : Int)
+    (h1 : I32MIN ≤ i) (h2 : i ≤ I32MAX) :
+    getTyped getInt32 (setValue kf g (some k) (.ok (showInt i))).1 g (some k) = .ok i := by
+  unfold getTyped; rw [C11_get_set_same kf g k _ hk]; exact C08_int32 i h1 h2
+
+theorem C08_uint64_object (kf : KeyFile) (g : Option Str) (k : Str) (hk : k ≠ []) (n : Nat) (h : n ≤ U64MAX) :
+    getTyped getUInt64 (setValue kf g (some k) (.ok (showNat n))).1 g (some k) = .ok n := by
+  unfold getTyped; rw [C11_get_set_same kf g k _ hk]; exact C08_uint64 n h
+
+/-- the printed text of an integer has the unambiguous textual form of DESIGN.md 5.4: digits with
+    an optional leading minus sign — no blanks, quotes, comment characters or delimiters -/
+def isNumChar (c : Byte) : Bool := (0x30 ≤ c && c ≤ 0x39) || c == 0x2D
+
+theorem toDigitsAux_chars (fuel n : Nat) (acc : Str) (h : ∀ c ∈ acc, isNumChar c = true) :
+    ∀ c ∈ toDigitsAux fuel n acc, isNumChar c = true := by
+  have hd : ∀ d : Fin 10, isNumChar (digitChar d.val) = true := by decide
+  induction fuel generalizing n acc with
+  | zero => simpa [toDigitsAux] using h
+  | succ f ih =>
+    unfold toDigitsAux
+    split
+    · intro c hc
+      rcases List.mem_cons.mp hc with rfl | hc
+      · exact hd ⟨n, by omega⟩
+      · exact h c hc
+    · apply ih
+      intro c hc
+      rcases List.mem_cons.mp hc with rfl | hc
+      · exact hd ⟨n % 10, Nat.mod_lt _ (by omega)⟩
+      · exact h c hc
+
+theorem C08_text_form (i : Int) : ∀ c ∈ showInt i, isNumChar c = true := by
+  unfold showInt showNat
+  split
+  · intro c hc
+    rcases List.mem_cons.mp hc with rfl | hc
+    · decide
+    · exact toDigitsAux_chars _ _ [] (by simp) c hc
+  · exact toDigitsAux_chars _ _ [] (by simp)
+
+/-! ### booleans -/
+
+/-- all case variants of a lower-case word -/
+def caseVariants : Str → List Str
+  | [] => [[]]
+  | c :: cs => (caseVariants cs).flatMap (fun r => if 0x61 ≤ c && c ≤ 0x7A then [c :: r, (c - 0x20) :: r] else [c :: r])
+
+def TRUE_SPELLINGS : List Str := [[0x31]] ++ caseVariants [0x79, 0x65, 0x73] ++ caseVariants [0x74, 0x72, 0x75, 0x65]
+def FALSE_SPELLINGS : List Str := [[0x30]] ++ caseVariants [0x6e, 0x6f] ++ caseVariants [0x66, 0x61, 0x6c, 0x73, 0x65]
+
+/-- every accepted boolean spelling (1, 0 and all 8+4+16+32 case variants of yes/no/true/false):
+    the setter stores the canonical word and the getter returns the truth value -/
+theorem C08_bool :
+    (∀ s ∈ TRUE_SPELLINGS, setBoolText s = .ok [0x74, 0x72, 0x75, 0x65] ∧ getBool [0x74, 0x72, 0x75, 0x65] = .ok true ∧ getBool s = .ok true) ∧
+    (∀ s ∈ FALSE_SPELLINGS, setBoolText s = .ok [0x66, 0x61, 0x6c, 0x73, 0x65] ∧ getBool [0x66, 0x61, 0x6c, 0x73, 0x65] = .ok false ∧ getBool s = .ok false) ∧
+    TRUE_SPELLINGS.length = 25 ∧ FALSE_SPELLINGS.length = 37 := by
+  refine ⟨?_, ?_, by decide, by decide⟩
+  · have : TRUE_SPELLINGS.all (fun s =>
+        (match setBoolText s with | .ok t => t == [0x74, 0x72, 0x75, 0x65] | _ => false) &&
+        (match getBool [0x74, 0x72, 0x75, 0x65] with | .ok b => b | _ => false) &&
+        (match getBool s with | .ok b => b | _ => false)) = true := by decide
+    intro s hs
+    have h := List.all_eq_true.mp this s hs
+    simp only [Bool.and_eq_true] at h
+    obtain ⟨⟨h1, h2⟩, h3⟩ := h
+    refine ⟨?_, ?_, ?_⟩
+    · cases hh : setBoolText s with
+      | ok t => rw [hh] at h1; simp at h1; rw [h1]
+      | error e => rw [hh] at h1; simp at h1
+    · cases hh : getBool [0x74, 0x72, 0x75, 0x65] with
+      | ok b => rw [hh] at h2; simp at h2; rw [h2]
+      | error e => rw [hh] at h2; simp at h2
+    · cases hh : getBool s with
+      | ok b => rw [hh] at h3; simp at h3; rw [h3]
+      | error e => rw [hh] at h3; simp at h3
+  · have : FALSE_SPELLINGS.all (fun s =>
+        (match setBoolText s with | .ok t => t == [0x66, 0x61, 0x6c, 0x73, 0x65] | _ => false) &&
+        (match getBool [0x66, 0x61, 0x6c, 0x73, 0x65] with | .ok b => !b | _ => false) &&
+        (match getBool s with | .ok b => !b | _ => false)) = true := by decide
+    intro s hs
+    have h := List.all_eq_true.mp this s hs
+    simp only [Bool.and_eq_true] at h
+    obtain ⟨⟨h1, h2⟩, h3⟩ := h
+    refine ⟨?_, ?_, ?_⟩
+    · cases hh : setBoolText s with
+      | ok t => rw [hh] at h1; simp at h1; rw [h1]
+      | error e => rw [hh] at h1; simp at h1
+    · cases hh : getBool [0x66, 0x61, 0x6c, 0x73, 0x65] with
+      | ok b => rw [hh] at h2; simp at h2; rw [h2]
+      | error e => rw [hh] at h2; simp at h2
+    · cases hh : getBool s with
+      | ok b => rw [hh] at h3; simp at h3; rw [h3]
+      | error e => rw [hh] at h3; simp at h3
+
+/-- non-vacuity: the limits of the types are in range and printed as expected -/
+example : showInt I32MIN = [0x2D, 0x32, 0x31, 0x34, 0x37, 0x34, 0x38, 0x33, 0x36, 0x34, 0x38] ∧
+    showNat 0 = [0x30] ∧ I32MIN ≤ I32MIN ∧ I32MIN ≤ I32MAX := by decide
+
 end Econf
